@@ -26,6 +26,8 @@ def build(case):
     rng = random.Random(case["seed"])
     fmt = case["fmt"]
     pal = M.rand_palette(rng)
+    if case.get("highbits"):
+        pal = [v | rng.choice([64, 128, 192]) for v in pal]      # don't-care bits of the palette registers set
     if fmt == "hrs":
         w, h, skip = case["w"], case["h"], case.get("skip", 0)
         pix = M.rand_pixels(rng, w, h, "random")
@@ -109,7 +111,7 @@ def run_case(case):
     fmt = case["fmt"]
     obs = {"counters": {"decodes": 1}, "viols": [], "sets": {"formats": [fmt]}}
     data, args, size, skip = build(case)
-    obs["key"] = "%s|%s|%s|%s|%s" % (fmt, size, " ".join(args), case.get("content"), str(case.get("preset")) + ("+stretch" if case.get("stretch") else ""))
+    obs["key"] = "%s|%s|%s|%s|%s" % (fmt, size, " ".join(args), case.get("content"), str(case.get("preset")) + ("+stretch" if case.get("stretch") else "") + ("+highbits" if case.get("highbits") else ""))
     res = D.decode(fmt, data, args)
     cl = observe.classify(fmt, res)
     detail = {"case": case, "args": args, "input_bytes": len(data), "expected_size": size}
@@ -212,6 +214,13 @@ def cases(tier, seed):
     for vt in (0, 1, 3):
         for sq in (False, True):
             yield c(fmt="vef", vt=vt, sq=sq)
+    for vt in (0, 1, 3):
+        for sq in (False, True):
+            yield c(fmt="vef", vt=vt, sq=sq, highbits=True)
+    yield c(fmt="hrs", w=16, h=3, highbits=True)
+    yield c(fmt="mge", rgb=True, comp=True, highbits=True)
+    yield c(fmt="cm3", two=False, pat=True, preset="mixed", highbits=True)
+    yield c(fmt="rat", highbits=True)
     # compressed formats: picture contents that give long / maximal runs at the start, the end and throughout, each with
     # the greedy ("maximal") and a random split of runs
     for content in ("zero", "max", "flatrows", "stripes", "bottomflat", "topflat", "corners", "vrepeat", "random"):
